@@ -6,6 +6,8 @@ import (
 	"context"
 	"errors"
 	"fmt"
+	"github.com/enfein/mieru/v3/pkg/appctl/appctlcommon"
+	"github.com/enfein/mieru/v3/pkg/protocol"
 	"net"
 	"strconv"
 	"strings"
@@ -43,6 +45,12 @@ type Config struct {
 	// BothTransports makes the server listen on TCP and UDP (same port); the
 	// client still uses the transport selected by UDP.
 	BothTransports bool `json:"bothTransports,omitempty"`
+	// RawClient: the client application talks to the session layer directly
+	// (protocol.Mux.DialContext, as built by appctlcommon.NewClientMuxFromProfile)
+	// instead of through apis/client: its very first Write carries the SOCKS5
+	// request together with the first application bytes in ONE caller-owned
+	// buffer that is overwritten as soon as Write returns.
+	RawClient bool `json:"rawClient,omitempty"`
 	// Quotas[i] (days, megabytes pairs) are attached to server user i.
 	Quotas map[int][][2]int32 `json:"quotas,omitempty"`
 }
@@ -54,6 +62,7 @@ type Env struct {
 	PNet   *simnet.PacketNet
 	Server server.Server
 	Client client.Client
+	RawMux *protocol.Mux
 
 	mu       sync.Mutex
 	srvConns map[int]chan *ServerConn
@@ -182,6 +191,14 @@ func StartServer(cfg Config, sn *simnet.StreamNet, pn *simnet.PacketNet) (*Env, 
 
 // StartClient starts the client half of the environment.
 func (e *Env) StartClient() error {
+	if e.Cfg.RawClient {
+		mux, err := appctlcommon.NewClientMuxFromProfile(e.Cfg.ClientProfileProto(), e.SNet, simnet.ClientDialer{N: e.PNet}, nil, nil)
+		if err != nil {
+			return fmt.Errorf("NewClientMuxFromProfile: %w", err)
+		}
+		e.RawMux = mux
+		return nil
+	}
 	e.Client = client.NewClient()
 	if err := e.Client.Store(&client.ClientConfig{
 		Profile:      e.Cfg.ClientProfileProto(),
@@ -217,6 +234,11 @@ func (e *Env) Stop() (clientStop, serverStop time.Duration) {
 	if e.Client != nil {
 		t := time.Now()
 		e.Client.Stop()
+		clientStop = time.Since(t)
+	}
+	if e.RawMux != nil {
+		t := time.Now()
+		e.RawMux.Close()
 		clientStop = time.Since(t)
 	}
 	if e.Server != nil {
@@ -340,7 +362,124 @@ func Socks5RequestLen(idx int) int {
 // Dial opens the client side of session idx. In STANDARD mode this completes
 // the handshake; in NO_WAIT mode the handshake happens on the first Write.
 func (e *Env) Dial(ctx context.Context, idx int) (net.Conn, error) {
+	if e.RawMux != nil {
+		conn, err := e.RawMux.DialContext(ctx)
+		if err != nil {
+			return nil, err
+		}
+		name := fmt.Sprintf("s%d.test", idx)
+		req := append([]byte{5, 1, 0, 3, byte(len(name))}, name...)
+		return &rawConn{Conn: conn, req: append(req, 0, 80), skip: 10}, nil
+	}
 	return e.Client.DialContext(ctx, DestAddr(idx))
+}
+
+// rawConn is an application that uses a session directly. It sends the
+// SOCKS5 request with its first Write and drops the 10-byte SOCKS5 response
+// from what it reads. Like io.Copy it re-uses its write buffer: the buffer is
+// overwritten as soon as Write returns (net.Conn: Write must not retain p).
+type rawConn struct {
+	net.Conn
+	wmu  sync.Mutex
+	rmu  sync.Mutex
+	req  []byte
+	skip int
+	buf  []byte
+	gen  int
+	dmu  sync.Mutex
+	rdl  time.Time
+}
+
+// mieru's Session forgets its read deadline after one Read call (see C15);
+// the wrapper issues two calls for the first Read, so it re-arms the deadline
+// the application asked for before each of them.
+func (c *rawConn) SetReadDeadline(t time.Time) error {
+	c.dmu.Lock()
+	c.rdl = t
+	c.dmu.Unlock()
+	return c.Conn.SetReadDeadline(t)
+}
+
+func (c *rawConn) SetDeadline(t time.Time) error {
+	c.dmu.Lock()
+	c.rdl = t
+	c.dmu.Unlock()
+	return c.Conn.SetDeadline(t)
+}
+
+func (c *rawConn) rearm() {
+	c.dmu.Lock()
+	t := c.rdl
+	c.dmu.Unlock()
+	if !t.IsZero() {
+		c.Conn.SetReadDeadline(t)
+	}
+}
+
+func (c *rawConn) Write(p []byte) (int, error) {
+	c.wmu.Lock()
+	defer c.wmu.Unlock()
+	c.gen++
+	gen := c.gen
+	// like io.Copy, every write goes through one buffer owned by the caller,
+	// which is filled again by the next write - or, when no further write
+	// follows, overwritten 20 ms later (long after Write returned, long before
+	// any retransmission timer)
+	defer time.AfterFunc(20*time.Millisecond, func() {
+		c.wmu.Lock()
+		if c.gen == gen {
+			for i := range c.buf {
+				c.buf[i] = 0x5A
+			}
+		}
+		c.wmu.Unlock()
+	})
+	if c.req == nil {
+		c.buf = append(c.buf[:0], p...)
+		return c.Conn.Write(c.buf)
+	}
+	// first write: request and the first application bytes in one buffer
+	k := len(p)
+	if k > 1024-len(c.req) {
+		k = 1024 - len(c.req)
+	}
+	first := append(append([]byte(nil), c.req...), p[:k]...)
+	c.buf = append(c.buf[:0], first...)
+	nreq := len(c.req)
+	n, err := c.Conn.Write(c.buf)
+	if err != nil {
+		if n > nreq {
+			return n - nreq, err
+		}
+		return 0, err
+	}
+	c.req = nil
+	if k < len(p) {
+		// the rest goes through a second buffer so that the first one stays
+		// untouched until the next write
+		rest := append([]byte(nil), p[k:]...)
+		m, err := c.Conn.Write(rest)
+		for i := range rest {
+			rest[i] = 0x5A
+		}
+		return k + m, err
+	}
+	return k, nil
+}
+
+func (c *rawConn) Read(p []byte) (int, error) {
+	c.rmu.Lock()
+	defer c.rmu.Unlock()
+	for c.skip > 0 {
+		tmp := make([]byte, c.skip)
+		n, err := c.Conn.Read(tmp)
+		c.skip -= n
+		if err != nil {
+			return 0, err
+		}
+		c.rearm()
+	}
+	return c.Conn.Read(p)
 }
 
 // ServerSide waits for the server side of session idx.
